@@ -128,8 +128,8 @@ class Engine:
     def explore(self, fn: Callable[[], Any]):
         self.pending = [[]]
         results = []
-        t_start = time.time()
-        while self.pending and len(results) < self.max_paths and time.time() - t_start < self.budget_s:
+        t_start = time.process_time()  # CPU time of this worker: a loaded machine must not shrink the exploration
+        while self.pending and len(results) < self.max_paths and time.process_time() - t_start < self.budget_s:
             prefix = self.pending.pop()
             self.decisions, self.pos, self.pc = list(prefix), 0, []
             self.fresh_ctr = 0
@@ -183,6 +183,12 @@ class Engine:
                 s.add(a)
             s.add(*path.pc)
             r = self.check()
+            if r == "unknown":
+                s.set("timeout", self.timeout_ms * 6)
+                try:
+                    r = self.check()
+                finally:
+                    s.set("timeout", self.timeout_ms)
             return s.model() if r == "sat" else None
         finally:
             s.pop()
@@ -369,6 +375,10 @@ class _SymNum(_Proxy):
 
     __hash__ = _Proxy.__hash__
 
+    def __bool__(self):
+        # truthiness of a number (`if not value`, `value or default`) is a decision like any other
+        return eng().branch(self.z != 0)
+
     def _arith(self, o, f, rev=False):
         try:
             oz = lift_num(o)
@@ -480,6 +490,9 @@ class SymStr(str):
 
     def __contains__(self, p):
         return bool(SymBool(z3.Contains(self.z, lift_str(p))))
+
+    def __bool__(self):
+        return eng().branch(z3.Length(self.z) > 0)
 
     def __len__(self):
         raise ModelGap("len(SymStr)")
